@@ -550,6 +550,7 @@ static unsigned char deref(unsigned pos, ring_t *ring)
 
 static size_t bundle_ring_length(ring_t *ring)
 {
+    const size_t total = ring[0].len+ring[1].len;
     unsigned pos = 8+8;//goto first length field
     uint32_t advance = 0;
     do {
@@ -557,11 +558,15 @@ static size_t bundle_ring_length(ring_t *ring)
                   deref(pos+1, ring) << (8*2) |
                   deref(pos+2, ring) << (8*1) |
                   deref(pos+3, ring) << (8*0);
-        if(advance)
+        if(advance) {
+            //Element runs past the end of the available data
+            if(pos+4 > total || advance > total-(pos+4))
+                return 0;
             pos += 4+advance;
+        }
     } while(advance);
 
-    return pos <= (ring[0].len+ring[1].len) ? pos : 0;
+    return pos <= total ? pos : 0;
 }
 
 //Zero means no full message present
